@@ -73,7 +73,12 @@ def order_sensitive_docs(rng, n, idx):
                           fields=[B.E('storySlug', 'sent at %d' % v), 'BODY'])
         else:
             d = B.msg_doc('roMetadataReplace', 5, carried=[B.E('roSlug', 'at %d' % v)])
-        docs.append(d.replace('<messageID>5</messageID>', '<messageID>%s</messageID>' % mid(v)))
+        d = d.replace('<messageID>5</messageID>', '<messageID>%s</messageID>' % mid(v))
+        if rng.random() < 0.4:
+            # messages of one running order may come from different senders
+            d = d.replace('<mosID>MOS ID</mosID>', '<mosID>%s</mosID><ncsID>%s</ncsID>' % (
+                rng.choice(['MOS ID', 'MOS B']), rng.choice(['NCS1', 'NCS2', 'NCS3'])), 1)
+        docs.append(d)
     return docs, ids_numeric
 
 
